@@ -51,7 +51,8 @@ class Parser:
         """Converts a given python file to an ast module and its name."""
         absolute_path = path.resolve()
         if self._file_should_be_parsed(absolute_path):
-            with open(absolute_path) as file:
+            # read as bytes: the compiler then honours a UTF-8 BOM or an encoding declaration
+            with open(absolute_path, "rb") as file:
                 code = file.read()
 
             module_name = self._get_module_name(path)
